@@ -163,7 +163,8 @@ def closure(cell):
                     pass
         # comparisons with plain numbers follow the magnitude
         x = q.raw_value
-        for other in (x, x + 1.0, x - 1.0):
+        import math as _m
+        for other in (x, x + 1.0, x - 1.0, _m.nextafter(x, _m.inf), _m.nextafter(x, -_m.inf), x * (1 + 1e-12), x * (1 - 5e-10)):
             exp = (x == other, x != other, x < other, x <= other, x > other, x >= other)
             got = (q == other, q != other, q < other, q <= other, q > other, q >= other)
             if exp != got:
@@ -212,6 +213,10 @@ def compare(cell):
                   'velocity': [('MPS', 1.0), ('KMH', 3.6)], 'pressure': [('MmHg', 25.4), ('InHg', 1.0)],
                   'energy': [('FootPound', 1.0), ('FootPound', 1.0)]}
     pool += [(U(n), m) for n, m in equal_sets[dim]]
+    # magnitudes that differ only in the last bits (equality and hashing must still tell them apart / agree with each other)
+    import math as _m
+    u_first = units[0]
+    pool += [(u_first, _m.nextafter(3.0, 4.0)), (u_first, 3.0 * (1 + 1e-12)), (u_first, 3.0 * (1 - 5e-10)), (u_first, 0.1 + 0.2), (u_first, 0.3)]
     viol = []
     n = 0
     n_equal = 0
